@@ -132,6 +132,7 @@ type streamPool struct {
 	mu              sync.Mutex
 	writeQueueSize  int
 	lastStreamId    uint32
+	vf              verifPoolState
 }
 
 func (s *streamPool) OutgoingMsg() (count uint32, size uint64) {
@@ -276,6 +277,7 @@ func (s *streamPool) addStream(drpcStream drpc.Stream, queueSize int, tags ...st
 	for _, tag := range tags {
 		s.streamIdsByTag[tag] = append(s.streamIdsByTag[tag], streamId)
 	}
+	verifAddStream(s, st, queueSize)
 	return st, nil
 }
 
@@ -459,6 +461,7 @@ func (s *streamPool) AddTagsCtx(ctx context.Context, tags ...string) error {
 	for _, newTag := range newTags {
 		s.streamIdsByTag[newTag] = append(s.streamIdsByTag[newTag], streamId)
 	}
+	verifPool(s, "addTags", st, tags)
 	return nil
 }
 
@@ -487,6 +490,7 @@ func (s *streamPool) RemoveTagsCtx(ctx context.Context, tags ...string) error {
 	for _, t := range toRemove {
 		removeStream(s.streamIdsByTag, t, streamId)
 	}
+	verifPool(s, "removeTags", st, tags)
 	return nil
 }
 
@@ -510,6 +514,7 @@ func (s *streamPool) RemoveTagsById(streamId uint32, tags ...string) error {
 	for _, t := range toRemove {
 		removeStream(s.streamIdsByTag, t, streamId)
 	}
+	verifPool(s, "removeTags", st, tags)
 	return nil
 }
 
@@ -529,6 +534,7 @@ func (s *streamPool) removeStream(streamId uint32) {
 
 	delete(s.streams, streamId)
 	closedTags := slices.Clone(st.tags)
+	verifPool(s, "removeStream", st, closedTags)
 	s.mu.Unlock()
 	st.l.Debug("stream removed", zap.Strings("tags", closedTags))
 	if s.closeHook != nil {
